@@ -13,7 +13,9 @@ import (
 )
 
 func newLocalCompanion(path string, file *sts.Partial) (cmp *sts.Partial, err error) {
-	cmp, err = readLocalCompanion(path, file.Name)
+	// (the extension is given explicitly: the helpers append it only to a path
+	// that does not end in it already, and the name of a staged file may)
+	cmp, err = readLocalCompanion(path+compExt, file.Name)
 	if err != nil {
 		return
 	}
